@@ -46,9 +46,22 @@ let hist_stream (name : string) (judge : exec_rec list -> (string * bool) list -
       let es = until_panic (List.rev es) in
       (* the oracle compares the implementation with itself and does not depend on the model:
          it is judged first; the model correspondence second *)
+      let corr = Drv_hist.replay f 3 in
       match judge es (List.rev cs) with
-      | Some clause -> specfail id clause
+      | Some clause ->
+        (* a recorded finding (D1, D6) is a property of the ALGORITHM, which the model reproduces: the
+           finding tag is honoured only when the model agrees with the implementation on this very
+           history; a deviation the model does not reproduce is a new violation *)
+        let tag_at =
+          let pat = "\tfinding=" in
+          let n = String.length clause and m = String.length pat in
+          let rec go i = if i + m > n then -1 else if String.sub clause i m = pat then i else go (i + 1) in
+          go 0 in
+        (match corr with
+         | (Some _, _) when tag_at >= 0 ->
+           specfail id (String.sub clause 0 tag_at ^ ":not_reproduced_by_the_model")
+         | _ -> specfail id clause)
       | None ->
-        (match Drv_hist.replay f 3 with
+        (match corr with
          | (Some d, _) -> mismatch id d
          | (None, kinds) -> ok id ("+" ^ (if String.contains kinds 'X' || String.contains kinds 'Y' then "exec" else "noexec"))))
